@@ -116,4 +116,14 @@ CHECKS = {
             dict(name="filehelpers", run="^TestFileHelpers$"),
         ],
     ),
+    "C16": dict(
+        pkg="c16", level="exploration",
+        rule=("each case = a subject (mem, keyvalue/plain, mount.FS with a child that is a mount point, Sub(mem), cache, tar, os.FS), a directory ('.' or 'd') with 0..40 children of mixed kinds created in a random order "
+              "(os.FS: 1 in 10 cases 200..300 children, beyond getdents batching) and a sequence of 1..8 page sizes from {1,2,3,7,N-1,N,N+1,10^6} mixed with {0,-1}. ReadDir by name must list every child once, sorted, with "
+              "IsDir/Type/Info agreeing with Stat (mount-point child: name and kind); ReadDir of a regular file must match ErrNotDir; paged reads on one handle must deliver a permutation without duplicates, never (empty,nil) for n>0, "
+              "io.EOF exactly when nothing remains, n<=0 on a fresh handle returns everything with nil; after a mid-way n<=0 only 'nil/EOF error, no panic' is asserted. non-trivial = >=2 children and >=2 positive page sizes"),
+        assumptions=["directories are not mutated between pages", OS_ASSUMPTION],
+        legs=[dict(name=k, run="^Test%s$" % n, quick=q, thorough=q * 10, shards=2) for (k, n, q) in [
+            ("mem", "Mem", 250), ("kvplain", "KVPlain", 150), ("mount", "Mount", 150), ("submem", "SubMem", 100), ("cache", "Cache", 150), ("tar", "Tar", 100), ("osfs", "OSFS", 100)]],
+    ),
 }
